@@ -67,7 +67,7 @@ def check_run_model(chk, ix, rules, tier="quick", mutate=None):
         if "V4" in rules:
             hookfail = f["hook_failed_any"]
             want = bool(f["child_failed"] or f["ki"] or f["aborted"] is True or hookfail
-                        or f["undefined_grew"] or f["cleanups_failed"])
+                        or f["undefined_grew"] or f["cleanups_failed"] or f.get("hook_failures_grew"))
             got = f["truthy"]
             if got is None:
                 chk.fail(_f("V4", fi, RM, ex, "undetermined", "truth value of run_model's result not determined: %r" % (f["ret"],), True))
